@@ -6,7 +6,7 @@
    interleavings of enqueuing goroutines, the roll-over goroutine and TTL
    timers, and all arrival sequences with priorities and TTLs. *)
 From Coq Require Import List ZArith Bool Lia Sorting.Sorted.
-From Verif Require Import C10.Model C10.Proofs C10.Proofs2 C10.Proofs3.
+From Verif Require Import C10.Model C10.Proofs C10.Proofs2 C10.Proofs3 C10.Plugin C10.PluginProofs.
 Import ListNotations.
 Open Scope Z_scope.
 
@@ -249,4 +249,157 @@ Example C10_holds_outside_nontrivial :
    map result_of (reqs (run c (init c 0) acts))) =
   (true, false,
    [(1, Some (true, 0)); (2, Some (false, 1501)); (3, Some (true, 1000)); (4, Some (false, 3))]).
+Proof. vm_compute. reflexivity. Qed.
+
+(* ================================================================== *)
+(* Plugin layer: StrategyBasedQueuePlugin (Plugin.v).                  *)
+(*                                                                    *)
+(* A plugin-level schedule is an arbitrary list of [paction]s: every   *)
+(* action names the queue key (remedy name, quota, window) it belongs  *)
+(* to; a non-enabled action leaves the state unchanged.  "forall acts" *)
+(* = all interleavings of the lookups, enqueues, parks, TTL timers,    *)
+(* returns and roll-over passes of any number of remedies.             *)
+
+(* ---- at most one queue per remedy ever exists (HEAD) ---- *)
+
+(* The lookup-or-create of OnRequest is one atomic step (queuesMutex.Lock):
+   whatever the schedule, at most one queue is ever constructed for a key and
+   every request that finished its lookup holds exactly the stored one. *)
+Theorem C10_plugin_one_queue_per_remedy : forall acts k,
+  let ks := pget k (prun Atomic pinit acts) in
+  (length (insts ks) <= 1)%nat /\
+  (forall q, In q (preqs ks) -> q_inst q = cur ks /\ cur ks <> None).
+Proof.
+  intros acts k ks. unfold ks. rewrite pget_prun, pget_pinit.
+  split; [apply ONE_length, ONE_krun|apply BOUND_krun].
+Qed.
+Print Assumptions C10_plugin_one_queue_per_remedy.
+
+(* ---- (a) releases per remedy and window <= quota (every schedule) ---- *)
+
+(* Grants of ALL queues ever constructed for the key, counted in one window. *)
+Definition C10_plugin_release_bound_for (v : variant) : Prop :=
+  forall acts k w,
+    kgrants w (insts (pget k (prun v pinit acts))) <= Z.max 0 (kquota k).
+
+Theorem C10_plugin_release_bound : C10_plugin_release_bound_for Atomic.
+Proof. intros acts k w. rewrite pget_prun, pget_pinit. apply release_bound_atomic. Qed.
+Print Assumptions C10_plugin_release_bound.
+
+(* With a monotone clock: every grant of the remedy lies in the aligned window
+   it was counted in, so the requests of one remedy released at instants of one
+   aligned window are at most the quota — the form the monitor checks. *)
+Theorem C10_plugin_release_bound_by_instant : forall acts k t0,
+  0 < kwsize k -> pmonotone t0 acts = true ->
+  let ks := pget k (prun Atomic pinit acts) in
+  (forall s g, In s (insts ks) -> In g (log s) ->
+     gwin g = uend (ccfg k 0) (gat g) /\ gwin g - kwsize k <= gat g < gwin g) /\
+  (forall w, kgrants_at (ccfg k 0) w (insts ks) <= Z.max 0 (kquota k)).
+Proof.
+  intros acts k t0 W M ks. unfold ks. rewrite pget_prun, pget_pinit.
+  pose proof (proj_monotone k acts t0 M) as KM. split.
+  - intros s g Is Ig. now apply (grants_in_window Atomic k (proj k acts) t0 W KM s g).
+  - intro w. now apply (release_bound_at_atomic k (proj k acts) t0).
+Qed.
+Print Assumptions C10_plugin_release_bound_by_instant.
+
+(* ---- (b) remedies do not influence each other (every schedule, both variants) ---- *)
+
+(* The state of a key (its map entry, its queues, its requests, hence every
+   verdict of its requests) after ANY plugin-level schedule is the state its own
+   actions alone produce: nothing a request of another remedy (or of a remedy
+   without configuration) does changes it. *)
+Theorem C10_plugin_frame : forall v acts k,
+  pget k (prun v pinit acts) = krun v k kinit (proj k acts).
+Proof. intros. now rewrite pget_prun, pget_pinit. Qed.
+Print Assumptions C10_plugin_frame.
+
+Corollary C10_plugin_frame_verdicts : forall v acts1 acts2 k rid,
+  proj k acts1 = proj k acts2 ->
+  pverdict (prun v pinit acts1) (Some k) rid = pverdict (prun v pinit acts2) (Some k) rid.
+Proof. intros v acts1 acts2 k rid E. simpl. now rewrite !C10_plugin_frame, E. Qed.
+Print Assumptions C10_plugin_frame_verdicts.
+
+(* ---- (c) the verdict mapping (every schedule, both variants) ---- *)
+
+(* OnRequest answers (vd, t) exactly when the queue its lookup returned answered
+   (b, t) to Enqueue: NoOp iff b = true, the early response iff b = false, and
+   then with the ResponseStatusCode of the configuration of that very call. *)
+Theorem C10_plugin_verdict : forall v acts k rid,
+  let ks := pget k (prun v pinit acts) in
+  (forall vd t, kverdict ks rid = Some (vd, t) <->
+     exists b sc, kanswer ks rid = Some (b, t) /\ kstatus ks rid = Some sc /\
+                  vd = (if b then VNoOp else VEarly sc)) /\
+  (forall sc, kstatus ks rid = Some sc ->
+     exists p hdrs t now, In (PK k (KEnq rid p hdrs t now)) acts /\ p_status p = sc).
+Proof.
+  intros v acts k rid ks. split; [intros; apply kverdict_spec|].
+  intros sc H. unfold ks in H. rewrite C10_plugin_frame in H.
+  destruct (kstatus_from_schedule _ _ _ _ _ H) as [p [hdrs [t [now [I E]]]]].
+  exists p, hdrs, t, now. split; [now apply proj_In|exact E].
+Qed.
+Print Assumptions C10_plugin_verdict.
+
+(* ---- the non-atomic variant over-releases ---- *)
+
+Definition key1 : qkey := (1, 1, 5).
+Definition par1 : par := {| p_ttl_h := 60; p_qsize := 10; p_status := 429; p_prz := None |}.
+
+(* Split: both first requests of the remedy miss the lookup before either has
+   stored its queue; each constructs, stores and uses its own queue, whose window
+   counter is 0: both are released in the same window although the quota is 1. *)
+Definition double_construction : list paction :=
+  [PK key1 (KLookup 1 10); PK key1 (KLookup 2 10);
+   PK key1 (KStore 1 10); PK key1 (KStore 2 11);
+   PK key1 (KEnq 1 par1 [] 11 12); PK key1 (KEnq 2 par1 [] 12 13)].
+
+Theorem C10_plugin_release_bound_split_refuted : ~ C10_plugin_release_bound_for Split.
+Proof.
+  intro H. specialize (H double_construction key1 (5 * second)).
+  revert H. vm_compute. intro H. apply H. reflexivity.
+Qed.
+Print Assumptions C10_plugin_release_bound_split_refuted.
+
+(* the same schedule, HEAD against the variant: at HEAD (KStore is not a step
+   of the code) request 2 finds the queue of request 1 and waits *)
+Example C10_plugin_double_construction_outcomes :
+  let res v := let s := prun v pinit double_construction in
+               (length (insts (pget key1 s)), kgrants (5 * second) (insts (pget key1 s)),
+                pverdict s (Some key1) 1, pverdict s (Some key1) 2) in
+  pmonotone 0 double_construction = true /\
+  res Atomic = (1%nat, 1, Some (VNoOp, 12), None) /\
+  res Split = (2%nat, 2, Some (VNoOp, 12), Some (VNoOp, 13)).
+Proof. vm_compute. repeat split. Qed.
+
+(* a non-trivial HEAD history: two remedies with the same strategy under
+   different names (own queues), prioritization by header, a roll-over that
+   releases the better priority first, a queue-full refusal with the configured
+   status, a TTL expiry, a request of a remedy without configuration *)
+Example C10_plugin_nontrivial :
+  let ka : qkey := (1, 1, 1) in
+  let kb : qkey := (2, 1, 1) in
+  let z := {| hname := [120]; groups := [([97], 0); ([98], 5)] |} in
+  let pa := {| p_ttl_h := 4; p_qsize := 2; p_status := 429; p_prz := Some z |} in
+  let pb := {| p_ttl_h := 3; p_qsize := 1; p_status := 503; p_prz := None |} in
+  let acts :=
+    [PK ka (KLookup 1 0); PK ka (KEnq 1 pa [([120], [98])] 0 0);
+     PK kb (KLookup 2 1); PK kb (KEnq 2 pb [] 1 1);
+     PK ka (KLookup 3 2); PK ka (KEnq 3 pa [([120], [98])] 2 2); PK ka (KR 3 RPark 2);
+     PK ka (KLookup 4 3); PK ka (KEnq 4 pa [([120], [97])] 3 3); PK ka (KR 4 RPark 3);
+     PK ka (KLookup 5 4); PK ka (KEnq 5 pa [] 4 4);
+     PNoConfig 6 5;
+     PK kb (KLookup 7 6); PK kb (KEnq 7 pb [] 6 6); PK kb (KR 7 RPark 6);
+     PK ka (KTick 0%nat second); PK ka (KR 4 RReturn second);
+     PK kb (KTick 0%nat second); PK kb (KR 7 RReturn second);
+     PK ka (KTick 0%nat (2 * second)); PK ka (KR 3 RReturn (2 * second))] in
+  let s := prun Atomic pinit acts in
+  (pmonotone 0 acts,
+   map (fun kr => pverdict s (fst kr) (snd kr))
+       [(Some ka, 1); (Some kb, 2); (Some ka, 3); (Some ka, 4); (Some ka, 5); (None, 6); (Some kb, 7)],
+   kgrants_at (ccfg ka 0) second (insts (pget ka s)),
+   kgrants_at (ccfg ka 0) (2 * second) (insts (pget ka s))) =
+  (true,
+   [Some (VNoOp, 0); Some (VNoOp, 1); Some (VNoOp, 2 * second); Some (VNoOp, second);
+    Some (VEarly 429, 4); Some (VMissingConfig, 5); Some (VNoOp, second)],
+   1, 1).
 Proof. vm_compute. reflexivity. Qed.
